@@ -12,6 +12,7 @@
 //!   ent     := id ':' des ':' kind ['@' id of the declaration this body completes]
 //!   kind    := 'O'ty constant | 'F'ty'/'ty function(param, result) | 'L'ty literal | 'T'ty('/'id'.'des)* type
 //!   usage   := 'v'ty value expected | 'c'('u' | ty)'/'ty call(actual, result) | 't' type mark
+//!            | 'xn'<sid>'.'<des>'/'ty call whose actual is the name des (use site sid) | 'xc'<sid>'.'<des>'.'('u' | ty)'/'ty actual is a nested call
 //!   ty      := 'i'<n> integer types (i0 = INTEGER) | 'o'<n> other types (o0 = BOOLEAN, o1 = CHARACTER)
 //!   des     := 0..7 identifiers v<n> | 9 identifier x | 10..17 identifiers t<n> | 20 "-" | 21 "+" | 30 'a' | 31 'b'
 //!              | >= 100 identifiers z<n> (one reserved literal per enumeration type)
@@ -59,10 +60,16 @@ enum Arg {
     Ty(Ty),
 }
 #[derive(Clone, Copy, PartialEq, Debug)]
+enum XArg {
+    Name(u32, u32),
+    Call(u32, u32, Arg),
+}
+#[derive(Clone, Copy, PartialEq, Debug)]
 enum Usage {
     Val(Ty),
     Call(Arg, Ty),
     Type,
+    CallX(XArg, Ty),
 }
 #[derive(Clone, PartialEq, Debug)]
 enum Item {
@@ -132,6 +139,17 @@ fn ser_item(it: &Item) -> String {
                     ser_ty(*t)
                 ),
                 Usage::Type => "t".to_string(),
+                Usage::CallX(XArg::Name(i, dd), t) => format!("xn{}.{}/{}", i, dd, ser_ty(*t)),
+                Usage::CallX(XArg::Call(i, dd, a), t) => format!(
+                    "xc{}.{}.{}/{}",
+                    i,
+                    dd,
+                    match a {
+                        Arg::Univ => "u".to_string(),
+                        Arg::Ty(x) => ser_ty(*x),
+                    },
+                    ser_ty(*t)
+                ),
             };
             format!("S{s}:{d}:{us}")
         }
@@ -225,6 +243,23 @@ fn parse_item(s: &str) -> Result<Item, String> {
                 b'c' => {
                     let (a, t) = f[2][1..].split_once('/').ok_or("c")?;
                     Usage::Call(if a == "u" { Arg::Univ } else { Arg::Ty(parse_ty(a)?) }, parse_ty(t)?)
+                }
+                b'x' => {
+                    let (x, t) = f[2][2..].split_once('/').ok_or("x")?;
+                    let g: Vec<&str> = x.split('.').collect();
+                    let t = parse_ty(t)?;
+                    match (f[2].as_bytes()[1], g.len()) {
+                        (b'n', 2) => Usage::CallX(XArg::Name(g[0].parse().map_err(|_| "x")?, g[1].parse().map_err(|_| "x")?), t),
+                        (b'c', 3) => Usage::CallX(
+                            XArg::Call(
+                                g[0].parse().map_err(|_| "x")?,
+                                g[1].parse().map_err(|_| "x")?,
+                                if g[2] == "u" { Arg::Univ } else { Arg::Ty(parse_ty(g[2])?) },
+                            ),
+                            t,
+                        ),
+                        _ => return Err(format!("bad usage {s}")),
+                    }
                 }
                 _ => return Err(format!("bad usage {s}")),
             };
@@ -480,6 +515,15 @@ impl<'a> Renderer<'a> {
                                 (format!("{}{}({});", pre, desig(*d), self.arg(*a, cur)), c)
                             }
                         }
+                        Usage::CallX(x, t) => {
+                            let pre = format!("constant u{} : {} := ", sid, self.type_mark(*t, cur));
+                            let c = pre.len() as u32;
+                            let inner = match x {
+                                XArg::Name(_, dd) => desig(*dd),
+                                XArg::Call(_, dd, a) => format!("{}({})", desig(*dd), self.arg(*a, cur)),
+                            };
+                            (format!("{}{}({});", pre, desig(*d), inner), c)
+                        }
                         Usage::Type => {
                             let pre = format!("subtype u{} is ", sid);
                             let c = pre.len() as u32;
@@ -488,6 +532,13 @@ impl<'a> Renderer<'a> {
                     };
                     let l = self.emit(f, text);
                     self.sites.push((*sid, f, l, col));
+                    if let Usage::CallX(x, _) = u {
+                        let inner_col = col + desig(*d).len() as u32 + 1;
+                        let isid = match x {
+                            XArg::Name(i, _) | XArg::Call(i, _, _) => *i,
+                        };
+                        self.sites.push((isid, f, l, inner_col));
+                    }
                 }
                 Item::OpenBlock | Item::OpenProcess => {
                     if let Some(topf) = stack.last_mut() {
@@ -731,6 +782,47 @@ impl Gen {
             // a use that fits some declaration that is probably visible here
             let e = self.pool[self.r.below(self.pool.len())].clone();
             let exact = self.r.chance(5, 6);
+            if let Kind::Func(p, r) = &e.kind {
+                if e.des < 20 && self.r.chance(1, 2) {
+                    // a call whose actual is itself a use site: a name of the parameter's type
+                    // (literal / constant) or a nested call returning it
+                    let (p, r) = (*p, *r);
+                    let names: Vec<Ent> = self
+                        .pool
+                        .iter()
+                        .filter(|x| x.des < 20 && matches!(&x.kind, Kind::Lit(t) | Kind::Obj(t) if *t == p))
+                        .cloned()
+                        .collect();
+                    let calls: Vec<Ent> = self
+                        .pool
+                        .iter()
+                        .filter(|x| x.des < 20 && matches!(&x.kind, Kind::Func(_, rr) if *rr == p))
+                        .cloned()
+                        .collect();
+                    let t = if exact { r } else { self.any_type(upto_pkg) };
+                    let pick_call = !calls.is_empty() && (names.is_empty() || self.r.chance(1, 3));
+                    if self.avail(t, upto_pkg) && (pick_call || !names.is_empty()) {
+                        self.next_sid += 1;
+                        let isid = self.next_sid;
+                        if pick_call {
+                            let g = calls[self.r.below(calls.len())].clone();
+                            if let Kind::Func(gp, _) = g.kind {
+                                let a = self.arg_for(gp);
+                                let aok = match a {
+                                    Arg::Ty(x) => self.avail(x, upto_pkg),
+                                    Arg::Univ => true,
+                                };
+                                if aok {
+                                    return Item::Site(sid, e.des, Usage::CallX(XArg::Call(isid, g.des, a), t));
+                                }
+                            }
+                        } else {
+                            let n = names[self.r.below(names.len())].clone();
+                            return Item::Site(sid, e.des, Usage::CallX(XArg::Name(isid, n.des), t));
+                        }
+                    }
+                }
+            }
             let u = match &e.kind {
                 Kind::Obj(t) | Kind::Lit(t) => Usage::Val(if exact { *t } else { self.any_type(upto_pkg) }),
                 Kind::Func(p, r) => {
@@ -749,6 +841,7 @@ impl Gen {
                         }
                 }
                 Usage::Type => true,
+                Usage::CallX(..) => true,
             };
             if e.des < 100 && ok {
                 return Item::Site(sid, e.des, u);
@@ -758,6 +851,12 @@ impl Gen {
         if k < 30 {
             let t = self.any_type(upto_pkg);
             Item::Site(sid, self.value_des(), Usage::Val(t))
+        } else if k < 40 {
+            let t = self.any_type(upto_pkg);
+            self.next_sid += 1;
+            let isid = self.next_sid;
+            let x = if self.r.chance(2, 3) { XArg::Name(isid, self.value_des()) } else { XArg::Call(isid, self.value_des(), Arg::Univ) };
+            Item::Site(sid, self.value_des(), Usage::CallX(x, t))
         } else if k < 65 {
             let p = self.any_type(upto_pkg);
             let a = self.arg_for(p);
@@ -817,9 +916,16 @@ impl Gen {
     }
     /// a fresh function entity; in_pkg: must not repeat a profile of another package
     fn func_ent(&mut self, rn: &mut RegionNames, upto_pkg: u32, in_pkg: bool) -> Option<Ent> {
-        let d = if self.r.chance(1, 4) { 20 + self.r.below(2) as u32 } else { self.value_des() };
-        let p = if is_op(d) { self.op_param_type(upto_pkg) } else { self.any_type(upto_pkg) };
+        let mut d = if self.r.chance(1, 4) { 20 + self.r.below(2) as u32 } else { self.value_des() };
+        let mut p = if is_op(d) { self.op_param_type(upto_pkg) } else { self.any_type(upto_pkg) };
         let r = self.any_type(upto_pkg);
+        // overloads that differ in the result type only: the context type has to single one out
+        let sibs: Vec<(u32, Ty)> = rn.over.iter().filter_map(|o| o.1.map(|pp| (o.0, pp))).collect();
+        if !sibs.is_empty() && self.r.chance(1, 3) {
+            let (sd, sp) = sibs[self.r.below(sibs.len())];
+            d = sd;
+            p = sp;
+        }
         if !rn.can_over(d, Some(p), r) {
             return None;
         }
